@@ -25,6 +25,11 @@ TraceNext ==
      /\ Need(scope => e.uninstalled, "UninstallRemovesIt", e.role)
      \* role "header": the name as a depfile entry; once no longer included, the header is deleted
      /\ Need(scope => e.hdrgone, "DeletedHeaderDoesNotBlockTheBuild", e.role)
+     \* role "finddir": the name as a directory searched by find_files (an entry of the depfile
+     \* that makes the build files regenerate): a new file in it is picked up; once the whole
+     \* directory is removed the next build still goes through (without its files)
+     /\ Need(scope => e.dirnoticed, "ChangeInSearchedDirectoryIsNoticed", e.role)
+     /\ Need(scope => e.dirgone, "RemovedSearchedDirectoryDoesNotBlockTheBuild", e.role)
   /\ l' = l + 1 /\ UNCHANGED t
 TraceSpec == TraceInit /\ [][TraceNext]_tvars
 =============================================================================
